@@ -54,7 +54,38 @@ pub fn check_plain(c: &Plain, obs: &Obs) -> CheckResult {
     Ok(())
 }
 
+/// A device that overrides the provided `ScpiDevice::push_error` (the -800 class is none of its error hook's
+/// business) and implements `opc()` with the documented helper `scpi_opc()`: `*OPC` sets the operation-complete
+/// bit all the same, and bits 5 / 6 of the status byte follow from it. (ese, sre)
+fn check_own_push_error(c: &(u8, u8, bool), obs: &Obs) -> CheckResult {
+    use crate::dev488::{MinDev, MIN_TREE, MIN_TREE_ALT};
+    use crate::ensure;
+    let (ese, sre, alt) = *c;
+    let tree = if alt { &MIN_TREE_ALT } else { &MIN_TREE };
+    let mut dev = MinDev::new(false);
+    dev.own_push_error = true;
+    let mut ctx = scpi::Context::default();
+    let mut resp: Vec<u8> = Vec::new();
+    let msg = format!("*ESE {ese};*SRE {sre};*OPC;*STB?;*ESR?;*ESR?");
+    let r = tree.run(msg.as_bytes(), &mut dev, &mut ctx, &mut resp);
+    ensure!(r.is_ok(), "own-push-error", "{msg:?} fails with {:?}", r.map_err(|e| e.get_code()));
+    let text = String::from_utf8_lossy(&resp).into_owned();
+    let parts: Vec<u8> = text.trim_end().split(';').filter_map(|p| p.parse().ok()).collect();
+    ensure!(parts.len() == 3, "own-push-error", "{msg:?} answers {text:?}");
+    let esb = ese & 1 != 0;
+    // bit 2 (queue) depends on whether this device queues the -800 event: not judged
+    let want_low = (esb as u8) << 5;
+    let mss = (want_low & sre != 0) || (parts[0] & 0x04 & sre != 0);
+    obs.label("device with its own push_error");
+    obs.nontrivial_if(esb, c);
+    ensure!(parts[1] & 1 == 1 && parts[2] == 0, "opc-bit", "device with its own push_error: {msg:?} answers {text:?}: *ESR? after *OPC must show bit 0 and then read 0");
+    ensure!(parts[0] & 0xB3 == want_low && (parts[0] & 0x40 != 0) == mss, "own-push-error-stb", "device with its own push_error: {msg:?} answers {text:?}: *STB? must show ESB = {esb} and MSS = {mss}");
+    Ok(())
+}
+
 fn run(e: &Engine) {
+    let cases: Vec<(u8, u8, bool)> = [0u8, 1, 2, 0x21, 0xFE, 0xFF].iter().flat_map(|ese| [0u8, 0x20, 0x04, 0x24, 0x40, 0xFF].iter().flat_map(move |sre| [(*ese, *sre, false), (*ese, *sre, true)])).collect();
+    e.fixed("device-with-its-own-push-error", cases, check_own_push_error);
     // a plain 488.2 device that keeps the trait's provided stb(): EVERY *ESE x EVERY *SRE x ESR patterns x MAV
     e.enumerate::<Plain, _, _>(
         "plain-488-device-every-ese-sre",
